@@ -480,10 +480,26 @@ func c19Run(c *fw.Ctx) {
 		}
 		return true
 	}
-	if !phase("p1_stop_races_bound2", races, 2) || !phase("p1_endings_len2_bound1", len12, 1) || !c.Thorough() {
+	// churn: every ending mode three times over, with two connections kept open,
+	// then back to the idle baseline
+	var cycle []string
+	for r := 0; r < 3; r++ {
+		cycle = append(cycle, c19Endings...)
+	}
+	var rev []string
+	for i := len(c19Endings) - 1; i >= 0; i-- {
+		rev = append(rev, c19Endings[i], c19Endings[i])
+	}
+	churn := []c19Case{
+		{Kind: "sched", Background: 2, Endings: cycle, StopAtEnd: true},
+		{Kind: "sched", Background: 2, Endings: rev, StopAtEnd: true},
+		{Kind: "sched", Background: 0, Endings: cycle, StopAtEnd: false},
+	}
+	if !phase("p1_stop_races_bound2", races, 2) || !phase("p1_endings_len2_bound1", len12, 1) || !phase("p1_churn_bound0", churn, 0) || !c.Thorough() {
 		return
 	}
 	_ = phase("p2_endings_len3_bound0", len3, 0) &&
+		phase("p2_churn_bound1", churn, 1) &&
 		phase("p3_stop_races_bound3", races, 3) &&
 		phase("p4_endings_len2_bound2", len12, 2) &&
 		phase("p5_endings_len3_bound1", len3, 1)
@@ -559,7 +575,7 @@ func init() {
 	fw.Register(&fw.Prop{
 		ID:          "C19",
 		Level:       "fault_enumeration",
-		Rule:        "(sequential) representative requests, alone and behind a PING: end of stream at EVERY byte offset with EOF and with reset, a Write failing from call 1..3, QUIT at each pipeline position (also with a failing write), every single-byte substitution of 18 valid streams; oracle: loop returned, transport closed, registry empty. (scheduled) a server with plain and TLS port started with Start(), 0..2 background connections, then every sequence of 1..2 endings out of {EOF at a boundary, EOF inside a request, reset inside a request, QUIT, malformed frame, client that stops reading until the server's Write parks and then resets, TLS garbage handshake, TLS abort after ClientHello, TLS certificate rejected by the common-name rule, valid TLS client then reset, valid TLS client then orderly close}, real crypto/tls, every schedule with <=1 deviation (thorough phases, in order: sequences of 3 endings on the default schedule, Stop races at bound 3, sequences of <=2 endings at bound 2, sequences of 3 at bound 1; each complete only when its <phase>_done counter equals <phase>_scenarios); after each ending, at quiescence: the server closed that socket, no server goroutine is parked on it, the registry holds exactly the background connections, which are still served; finally Stop releases everything (sockets, goroutines, registry, listeners). Plus Stop racing with a connecting client, a client still in the accept backlog, a client with a command in flight, a client in the TLS handshake and one stalled before its ClientHello, and Stop after a second Start() on the running server, which must leave registry and connections as they were (deviation bound 2).",
+		Rule:        "(sequential) representative requests, alone and behind a PING: end of stream at EVERY byte offset with EOF and with reset, a Write failing from call 1..3, QUIT at each pipeline position (also with a failing write), every single-byte substitution of 18 valid streams; oracle: loop returned, transport closed, registry empty. (scheduled) a server with plain and TLS port started with Start(), 0..2 background connections, then every sequence of 1..2 endings out of {EOF at a boundary, EOF inside a request, reset inside a request, QUIT, malformed frame, client that stops reading until the server's Write parks and then resets, TLS garbage handshake, TLS abort after ClientHello, TLS certificate rejected by the common-name rule, valid TLS client then reset, valid TLS client then orderly close}, real crypto/tls, every schedule with <=1 deviation (thorough phases, in order: sequences of 3 endings on the default schedule, Stop races at bound 3, sequences of <=2 endings at bound 2, sequences of 3 at bound 1; each complete only when its <phase>_done counter equals <phase>_scenarios); after each ending, at quiescence: the server closed that socket, no server goroutine is parked on it, the registry holds exactly the background connections, which are still served; finally Stop releases everything (sockets, goroutines, registry, listeners). Plus churn (every ending mode three times in a row, forwards and pairwise backwards, with two connections kept open, default schedule; thorough: one deviation), and Stop racing with a connecting client, a client still in the accept backlog, a client with a command in flight, a client in the TLS handshake and one stalled before its ClientHello, and Stop after a second Start() on the running server, which must leave registry and connections as they were (deviation bound 2).",
 		Assumptions: []string{"the in-memory transport is the only kind of descriptor the framework opens besides listeners: 'descriptor released' = Close called on it", "10^4-cycle churn and /proc/self/fd counts are replaced by zero residue per ending from every reachable small registry state"},
 		Run:         c19Run,
 		Replay:      c19Replay,
